@@ -262,6 +262,11 @@ def entity_canaries(sx, p):
             charset = sx.choose('transport_charset', [None, 'utf-8'])
             decl = sx.choose('encoding_declaration', ['', ' encoding="UTF-8"'])
             body = ('<?xml version="1.0"%s?>' % decl + doctype + inner).encode()
+            # ... and the document itself need not be UTF-8: a legal UTF-16 or ISO-8859-1 spelling of the same attack
+            doc_enc = sx.choose('document_encoding', ['utf-8', 'utf-16', 'iso-8859-1']) if (charset is None and not decl) else 'utf-8'
+            if doc_enc != 'utf-8':
+                text = ('<?xml version="1.0" encoding="%s"?>' % doc_enc.upper() + doctype + inner).replace('plain', u'pl\xe9in')
+                body = text.encode(doc_enc)
             SEEN.clear()
             ctx = MethodContext(server, MethodContext.SERVER)
             ctx.in_string = [body]
